@@ -1,10 +1,52 @@
 (* Props/C06.v -- C06: the result does not depend on the order in which modules are analysed.
-   (work in progress: witnesses first) *)
+
+   Model: Model/Project.v (the module work-list machine with registry, alias maps, on-demand processing of imports,
+   visit-time base resolution, __all__ re-exports, second base-resolution pass).  A schedule sigma is the order of
+   System.unprocessed_modules; `run_state p sigma` is the final state, `module_ids p` the module indices.
+   Static reading of a project (which objects it defines, their qualified names): Spec/ProjectStatic.v.
+
+   PROVED for every project and every pair of schedules (no bound):
+     C06_registry_static, C06_registry_order_free   -- hypotheses: modules added parents first, distinct qualified
+        names ("each name is bound once per scope", for definitions), no import that re-exports (an imported name is
+        never listed in the importer's __all__; a module with a star import exports nothing).  Import cycles, late
+        imports, aliases, plain imports, star imports that do not re-export are all allowed.
+     C06_schedules_covered                            -- the orders the real tool can realise are permutations of the
+        module indices, i.e. instances of the quantifier of the theorems.
+   REFUTED on the faithful model (pydoctor really depends on the order; known findings in known_findings/C06.json):
+     C06_dup_in_cycle_refuted, C06_stale_name_refuted, C06_moved_class_rescoped_refuted,
+     C06_reexport_in_cycle_refuted, C06_star_in_cycle_refuted.
+   NOT PROVED (sampled by the correspondence check and the two-schedule oracle only): order independence of the
+   resolved bases (C06_bases_order_free, C06_cycles_hierarchy of DESIGN.md) and of the location of a re-exported
+   object for general projects (C06_single_reexporter; the single designated re-export is C07_moved_once).
+   Residual of the model: nested classes, imports inside class bodies, Class.find, duplicate module names,
+   unparsable modules; the C3 linearisation is a function of the resolved bases (C05). *)
 From Coq Require Import ZArith NArith List Bool Permutation.
-From PydoctorVerif Require Import Base.Sexp Model.Project.
+From PydoctorVerif Require Import Base.Sexp Model.Project Spec.ProjectStatic
+     Proofs.ProjectBase Proofs.ProjectRegistry Proofs.ProjectStaticCheck.
 Import ListNotations.
 Local Open Scope N_scope.
 
+(* The final registry is the one the source text defines: a qualified name k is registered with (class, kind,
+   docstring) e exactly when some definition of the project has that qualified name and that description --
+   whatever the order of the module list. In particular the machine neither runs out of fuel nor trips an assert. *)
+Theorem C06_registry_static :
+  forall (p : project) (sigma : list N),
+    parents_first p -> keys_distinct p -> no_move p -> Permutation sigma (module_ids p) ->
+    exists s, run_state p sigma = Ok s /\
+              forall k e, reg_entry s k = Some e <->
+                          exists o si, sobj p o = Some si /\ skey p o = k /\ e = (s_tag si, s_kind si, s_doc si).
+Proof. intros p sigma Hwf Hinj Hnm Hperm. exact (registry_static p Hwf Hinj Hnm sigma Hperm). Qed.
+
+(* ... hence the key set and (class, kind, docstring) of every object are the same for all schedules. *)
+Theorem C06_registry_order_free :
+  forall (p : project) (sigma1 sigma2 : list N),
+    parents_first p -> keys_distinct p -> no_move p ->
+    Permutation sigma1 (module_ids p) -> Permutation sigma2 (module_ids p) ->
+    exists s1 s2, run_state p sigma1 = Ok s1 /\ run_state p sigma2 = Ok s2 /\
+                  forall k, reg_entry s1 k = reg_entry s2 k.
+Proof. intros p s1 s2 Hwf Hinj Hnm H1 H2. exact (registry_order_free p Hwf Hinj Hnm s1 s2 H1 H2). Qed.
+
+(* ---- witnesses ---- *)
 (* a.py:  class B ("first") / from b import C / class B ("second")      b.py:  from a import B / class C(B) *)
 Definition dup_cycle : project :=
   [ {| m_name := 1; m_parent := None; m_pkg := false; m_doc := 0;
@@ -12,12 +54,113 @@ Definition dup_cycle : project :=
     {| m_name := 2; m_parent := None; m_pkg := false; m_doc := 0;
        m_stmts := [SImportFrom 0 [1] [(10, 10)]; SClass 11 0 [[10]] []] |} ].
 
+(* import cycle + the same class name defined twice in a module of the cycle: the base of b.C is the FIRST
+   definition (renamed "a.B 0") under the order a, b and the second one under the order b, a *)
 Theorem C06_dup_in_cycle_refuted :
   exists (p : project) (s1 s2 : list N) (k : path),
-    Permutation s1 s2 /\
+    Permutation s1 (module_ids p) /\ Permutation s2 (module_ids p) /\
     run_view p s1 (fun s => bases_view s k) = Some (Some [([1; dup_name 10 0], Some [1; dup_name 10 0])]) /\
     run_view p s2 (fun s => bases_view s k) = Some (Some [([1; 10], Some [1; 10])]).
 Proof.
   exists dup_cycle, [0; 1], [1; 0], [2; 11].
-  split; [apply perm_swap|]. split; vm_compute; reflexivity.
+  split; [apply Permutation_refl|]. split; [apply perm_swap|]. split; vm_compute; reflexivity.
+Qed.
+
+(* the hypotheses of the positive theorems are satisfiable, with an import cycle and bases that need the second pass:
+   a.py: from b import B / class A(B)     b.py: from a import A / class B / class B2(A) *)
+Definition two_cycle : project :=
+  [ {| m_name := 1; m_parent := None; m_pkg := false; m_doc := 5;
+       m_stmts := [SImportFrom 0 [2] [(11, 11)]; SClass 10 1 [[11]] [(0, 20, 3); (1, 21, 0)]] |};
+    {| m_name := 2; m_parent := None; m_pkg := false; m_doc := 0;
+       m_stmts := [SImportFrom 0 [1] [(10, 10)]; SClass 11 2 [] []; SClass 12 0 [[10]] []; SVar 13 4; SFunc 14 0] |} ].
+
+Example C06_hypotheses_satisfiable :
+  parents_first two_cycle /\ keys_distinct two_cycle /\ no_move two_cycle /\
+  Permutation [1; 0] (module_ids two_cycle) /\
+  run_view two_cycle [1; 0] (fun s => (reg_entry s [1; 10; 20], bases_view s [2; 12], bases_view s [1; 10])) =
+  Some (Some (T_FUNCTION, K_METHOD, 3), Some [([1; 10], Some [1; 10])], Some [([2; 11], Some [2; 11])]).
+Proof.
+  split; [apply parents_firstb_sound; vm_compute; reflexivity|].
+  split; [apply keys_distinctb_sound; vm_compute; reflexivity|].
+  split; [apply no_moveb_sound; vm_compute; reflexivity|].
+  split; [apply perm_swap|vm_compute; reflexivity].
+Qed.
+
+(* _impl.py: class Foo      api.py: from _impl import Foo ; __all__ = ['Foo']      cons.py: from _impl import Foo ; class K(Foo)
+   names: Foo 1, _impl 2 (+ the underscore bit), api 3, K 4, cons 5.  No import cycle. *)
+Definition stale_sibling : project :=
+  [ {| m_name := 524290; m_parent := None; m_pkg := false; m_doc := 0; m_stmts := [SClass 1 0 [] []] |};
+    {| m_name := 3; m_parent := None; m_pkg := false; m_doc := 0;
+       m_stmts := [SImportFrom 0 [524290] [(1, 1)]; SAll [1]] |};
+    {| m_name := 5; m_parent := None; m_pkg := false; m_doc := 0;
+       m_stmts := [SImportFrom 0 [524290] [(1, 1)]; SClass 4 0 [[1]] []] |} ].
+
+(* the consumer that imports the re-exported class from its defining module: analysed before the re-exporter its base
+   is resolved (and follows the move to api.Foo), analysed after it the stale name _impl.Foo is unknown *)
+Theorem C06_stale_name_refuted :
+  exists (p : project) (s1 s2 : list N) (k : path),
+    Permutation s1 (module_ids p) /\ Permutation s2 (module_ids p) /\
+    run_view p s1 (fun s => bases_view s k) = Some (Some [([524290; 1], None)]) /\
+    run_view p s2 (fun s => bases_view s k) = Some (Some [([3; 1], Some [3; 1])]).
+Proof.
+  exists stale_sibling, [0; 1; 2], [0; 2; 1], [5; 4].
+  split; [apply Permutation_refl|]. split; [apply perm_skip; apply perm_swap|]. split; vm_compute; reflexivity.
+Qed.
+
+(* m3.py: class K9      m4.py: import m3 as a ; class K10(a.K9)      m1.py: from m4 import K10 ; __all__ = ['K10']
+   names: K9 1, m3 2, a 3, K10 4, m4 5, m1 6.  No import cycle. *)
+Definition rescoped : project :=
+  [ {| m_name := 2; m_parent := None; m_pkg := false; m_doc := 0; m_stmts := [SClass 1 0 [] []] |};
+    {| m_name := 5; m_parent := None; m_pkg := false; m_doc := 0;
+       m_stmts := [SImport [2] 3; SClass 4 0 [[3; 1]] []] |};
+    {| m_name := 6; m_parent := None; m_pkg := false; m_doc := 0;
+       m_stmts := [SImportFrom 0 [5] [(4, 4)]; SAll [4]] |} ].
+
+(* a class that is moved by a re-export and whose base is not yet resolvable when it is visited (m3 not analysed yet:
+   a plain import does not trigger it): the second pass resolves `a.K9` in the scope of the NEW parent m1 *)
+Theorem C06_moved_class_rescoped_refuted :
+  exists (p : project) (s1 s2 : list N) (k : path),
+    Permutation s1 (module_ids p) /\ Permutation s2 (module_ids p) /\
+    run_view p s1 (fun s => bases_view s k) = Some (Some [([2; 1], Some [2; 1])]) /\
+    run_view p s2 (fun s => bases_view s k) = Some (Some [([2; 1], None)]).
+Proof.
+  exists rescoped, [0; 1; 2], [1; 0; 2], [6; 4].
+  split; [apply Permutation_refl|]. split; [apply perm_swap|]. split; vm_compute; reflexivity.
+Qed.
+
+(* m2.py: from m3 import K5 ; class K3 ; __all__ = ['K5']      m3.py: from m2 import K3 as K3a ; class K5(K3a)
+   names: m3 1, K5 2, K3 3, m2 4, K3a 5.  A re-export inside an import cycle. *)
+Definition reexport_cycle : project :=
+  [ {| m_name := 4; m_parent := None; m_pkg := false; m_doc := 0;
+       m_stmts := [SImportFrom 0 [1] [(2, 2)]; SClass 3 0 [] []; SAll [2]] |};
+    {| m_name := 1; m_parent := None; m_pkg := false; m_doc := 0;
+       m_stmts := [SImportFrom 0 [4] [(3, 5)]; SClass 2 0 [[5]] []] |} ].
+
+(* order m2, m3: K5 is moved to m2 and its base stays unresolved; order m3, m2: K5 is not moved and its base resolves *)
+Theorem C06_reexport_in_cycle_refuted :
+  exists (p : project) (s1 s2 : list N),
+    Permutation s1 (module_ids p) /\ Permutation s2 (module_ids p) /\
+    run_view p s1 (fun s => (bases_view s [4; 2], bases_view s [1; 2])) = Some (Some [([4; 3], None)], None) /\
+    run_view p s2 (fun s => (bases_view s [4; 2], bases_view s [1; 2])) = Some (None, Some [([4; 3], Some [4; 3])]).
+Proof.
+  exists reexport_cycle, [0; 1], [1; 0].
+  split; [apply Permutation_refl|]. split; [apply perm_swap|]. split; vm_compute; reflexivity.
+Qed.
+
+(* a.py: class A0 ; from b import * ; class A1(B0)      b.py: from a import * ; class B0
+   names: A0 1, b 2, A1 3, B0 4, a 5.  A star import inside an import cycle. *)
+Definition star_cycle : project :=
+  [ {| m_name := 5; m_parent := None; m_pkg := false; m_doc := 0;
+       m_stmts := [SClass 1 0 [] []; SImportStar 0 [2]; SClass 3 0 [[4]] []] |};
+    {| m_name := 2; m_parent := None; m_pkg := false; m_doc := 0;
+       m_stmts := [SImportStar 0 [5]; SClass 4 0 [] []] |} ].
+
+Theorem C06_star_in_cycle_refuted :
+  exists (p : project) (s1 s2 : list N) (k : path),
+    Permutation s1 (module_ids p) /\ Permutation s2 (module_ids p) /\
+    run_view p s1 (fun s => bases_view s k) = Some (Some [([2; 4], Some [2; 4])]) /\
+    run_view p s2 (fun s => bases_view s k) = Some (Some [([4], None)]).
+Proof.
+  exists star_cycle, [0; 1], [1; 0], [5; 3].
+  split; [apply Permutation_refl|]. split; [apply perm_swap|]. split; vm_compute; reflexivity.
 Qed.
